@@ -39,7 +39,9 @@ def scenarios(draw):
           # dispose by the application at a moment of its own: immediately after subscribe (0) or k ticks later
           'dispose_ticks': draw(st.one_of(st.none(), st.none(), st.none(), st.sampled_from([0, 0, 1, 2, 3, 5]))),
           'bp': draw(st.booleans()), 'msg': draw(st.booleans()), 'rbuf': draw(st.sampled_from([1, 7, 1024])),
-          'frag': draw(st.sampled_from([None, None, 64])), 'lens': draw(st.sampled_from([[5, 0], [0, 4], [70, 3]]))}
+          'frag': draw(st.sampled_from([None, None, 64])), 'lens': draw(st.sampled_from([[5, 0], [0, 4], [70, 3]])),
+          # core-API sources end with the complete flag on the last element (NEXT|COMPLETE) or with a separate completion
+          'flag_end': draw(st.booleans())}
     if model == 'ch':
         sc['m'] = draw(st.integers(0, 8))
         sc['rbp'] = draw(st.booleans())
@@ -53,6 +55,15 @@ def scenarios(draw):
         sc['dispose_after'] = None
     if sc['dispose_after'] is not None and sc['dispose_after'] > sc['n']:
         sc['dispose_after'] = None
+    if sc['flag_end']:
+        # a core source that flags its last element complete cannot also fail after it, and a dispose on that element
+        # coincides with the terminal signal: keep the scenario unambiguous for every execution
+        if sc['err_at'] is not None and sc['err_at'] >= sc['n']:
+            sc['err_at'] = None
+        if model == 'ch' and sc.get('rerr_at') is not None and sc['rerr_at'] >= sc['m']:
+            sc['rerr_at'] = None
+        if sc['dispose_after'] is not None and sc['dispose_after'] >= sc['n']:
+            sc['dispose_after'] = None
     if sc['dispose_ticks'] is not None:
         sc['dispose_after'] = None
         if model not in ('st', 'ch'):
@@ -268,11 +279,12 @@ def build_core(sc):
     spec = {'k': model if model not in ('setup',) else 'rr', 'side': 'c', 'req': [6, 2]}
     if model in ('st', 'ch'):
         els = [lens] * n
-        spec['src'] = {'kind': 'gen' if not sc['bp'] else 'agen', 'els': els, 'end': 'sep', 'err_at': sc['err_at']}
+        spec['src'] = {'kind': 'gen' if not sc['bp'] else 'agen', 'els': els, 'end': 'flag' if sc.get('flag_end') else 'sep',
+                       'err_at': sc['err_at']}
         spec['sub'] = {'n0': sc['limit'], 'refill': sc['limit'] if sc['limit'] < MAXN else 0, 'cancel_at': sc['dispose_after']}
     if model == 'ch':
-        spec['rsrc'] = {'kind': 'gen' if not sc.get('rbp') else 'agen', 'els': [lens] * sc['m'], 'end': 'sep',
-                        'err_at': sc.get('rerr_at')}
+        spec['rsrc'] = {'kind': 'gen' if not sc.get('rbp') else 'agen', 'els': [lens] * sc['m'],
+                        'end': 'flag' if sc.get('flag_end') else 'sep', 'err_at': sc.get('rerr_at')}
         spec['rsub'] = {'n0': min(sc.get('resp_limit', MAXN), MAXN), 'refill': sc['resp_limit'] if sc.get('resp_limit', MAXN) < MAXN else 0}
     if model == 'rr':
         spec['resp'] = {'mode': 'fail' if sc['err_at'] == 0 else 'now', 'p': lens if n else [0, 0]}
@@ -281,35 +293,64 @@ def build_core(sc):
     return spec
 
 
+def kinds(variant):
+    """variant 'core' | 'rx3' | 'rx4' (same on both sides) or 'client/handler'"""
+    if '/' in variant:
+        c, h = variant.split('/')
+        return c, h
+    return variant, variant
+
+
 def run_variant(sc, variant):
+    ck, hk = kinds(variant)
     cfg = {'msg': sc['msg'], 'frag': [sc['frag'], sc['frag']], 'rbuf': [sc['rbuf'], sc['rbuf']],
            'setup_payload': list(el(0, A.TAG_REQ, 9, [4, 3])), 'data_encoding': b'application/x-c20',
            'metadata_encoding': b'message/x.c20'}
     ops_tail = [['tick', 6], ['settle'], ['adv', 60], ['settle'], ['adv', 60], ['settle']]
-    if variant == 'core':
+    prog = {'cfg': cfg, 'inter': [], 'heal': False, '_handler_factory': {}, '_actions': {}}
+    if hk != 'core':
+        sf, _go, _disp = build_rx(sc, 3 if hk == 'rx3' else 4)
+        prog['_handler_factory']['s'] = sf
+    if ck == 'core':
         pre = [['tick', 3], ['start']]
         if sc.get('dispose_ticks') is not None and sc['model'] in ('st', 'ch'):
             if sc['dispose_ticks']:
                 pre.append(['tick', sc['dispose_ticks']])
             pre.append(['cancel', 0, 'resp'])
-        prog = {'cfg': cfg, 'inter': [build_core(sc)], 'ops': pre + ops_tail, 'heal': False}
+        prog['inter'] = [build_core(sc)]
+        prog['ops'] = pre + ops_tail
         if sc['model'] == 'setup':
             prog['inter'] = []
             prog['ops'] = [['tick', 3]] + ops_tail
         return run_program(prog)
-    sf, go, dispose_now = build_rx(sc, 3 if variant == 'rx3' else 4)
+    _sf, go, dispose_now = build_rx(sc, 3 if ck == 'rx3' else 4)
+    if hk == 'core' and sc['model'] in ('st', 'ch', 'rr', 'fnf'):
+        # the core handler finds its script through the stream id: adopt the interaction the Rx client is about to issue
+        prog['inter'] = [build_core(sc)]
+        inner = go
+
+        def go(scn, _inner=inner):
+            _inner(scn)
+            sock = scn.sock['c']
+            sid = sock._stream_control._current_stream_id
+            spec = scn.inter[0]
+            scn.st[0] = {'spec': spec, 'uid': 0, 'pub': {}, 'libpub': {}, 'sub': {}, 'hfut': None, 'fut': None, 'sid': sid}
+            scn.started.append(0)
+            scn.world.bind('c', sid, 0)
     ops = [['tick', 3], ['call', 'go']]
     if sc.get('dispose_ticks'):
         ops += [['tick', sc['dispose_ticks']], ['call', 'dispose']]
-    prog = {'cfg': cfg, 'inter': [], 'ops': ops + ops_tail, 'heal': False,
-            '_handler_factory': {'s': sf}, '_actions': {'go': go, 'dispose': dispose_now}}
+    prog['ops'] = ops + ops_tail
+    prog['_actions'] = {'go': go, 'dispose': dispose_now}
     return run_program(prog)
 
 
 def observed(tr, variant, who):
     """normalised observation sequence: ('next', d, m) / ('completed',) / ('error',) / ('dispose',)"""
     out = []
-    if variant == 'core':
+    ck, hk = kinds(variant)
+    side_kind = ck if who == 'requester' else hk
+    if side_kind == 'core':
         side, dirn = ('c', 'resp') if who == 'requester' else ('s', 'req')
         for e in tr.world.log:
             if e.get('uid') == 0 and e['side'] == side and e.get('dir') == dirn:
@@ -391,7 +432,8 @@ def judge_variant(sc, variant):
             kind = 'missing' if len(got) < len(want) and want[:len(got)] == got else ('extra' if got[:len(want)] == want else 'differs')
             bad('responder_observation_differs', 'responder_%s' % kind, want=[x[0] for x in want][:20], got=[x[0] for x in got][:20],
                 m=sc['m'], rerr_at=sc.get('rerr_at'))
-    if variant != 'core' and model in ('st', 'ch'):
+    ck, hk = kinds(variant)
+    if ck != 'core' and model in ('st', 'ch'):
         reqs = [e for e in wire_c if e['f']['type'] in ('REQUEST_STREAM', 'REQUEST_CHANNEL')]
         if reqs and reqs[0]['f'].get('n') != sc['limit']:
             bad('initial_request_n_differs_from_limit', 'initial_n', n=reqs[0]['f'].get('n'), limit=sc['limit'])
@@ -406,6 +448,7 @@ def judge_variant(sc, variant):
             if arrived < (i + 1) * sc['limit']:
                 bad('credit_renewed_early', 'credit_early', request_index=i, arrived=arrived, limit=sc['limit'])
                 break
+    if hk != 'core' and model in ('st', 'ch'):
         # the handler's observable reaches the wire within the credit received
         credit = 0
         sent = 0
@@ -439,6 +482,7 @@ def judge_variant(sc, variant):
             if fb != credits[:len(fb)] or (len(fb) < len(credits) and sc['err_at'] is None and sc['dispose_after'] is None
                                             and len(fb) * 1 < 1):
                 bad('feedback_differs_from_credit', 'feedback', feedback=fb[:8], credits=credits[:8])
+    if ck != 'core' and model in ('st', 'ch'):
         if sc['dispose_after'] is not None or sc.get('dispose_ticks') is not None:
             cancels = [e for e in wire_c if e['f']['type'] == 'CANCEL']
             disposed = any(e['ev'] == 'obs' and e['what'] == 'dispose' for e in tr.world.log)
@@ -456,12 +500,12 @@ def judge_variant(sc, variant):
                                       (e['f'].get('complete') or e['f']['type'] == 'ERROR') for e in tr.world.recv.get('c', []))
                 if not terminal_before or len(cancels) > 1:
                     bad('dispose_did_not_cancel', 'dispose_cancel_count:%d' % len(cancels), n=len(cancels))
-            if disposed and sc['bp'] and not terminal_before:
+            if disposed and sc['bp'] and not terminal_before and hk != 'core':
                 started = any(e['ev'] == 'gen_start' and e.get('src') == 'resp' for e in tr.world.log)
                 finished = any(e['ev'] in ('gen_finally', 'feedback_completed') and e.get('src') == 'resp' for e in tr.world.log)
                 if started and not finished:
                     bad('dispose_did_not_cancel_source', 'dispose_source')
-    if variant != 'core':
+    if hk != 'core':
         delegate = [e for e in tr.world.log if e['ev'] == 'delegate']
         d, m = el(0, A.TAG_REQ, 0, [6, 2])
         sd, sm = el(0, A.TAG_REQ, 9, [4, 3])
@@ -483,12 +527,14 @@ def judge_variant(sc, variant):
     return out
 
 
+VARIANTS = ('core', 'rx3', 'rx4', 'core/rx3', 'core/rx4', 'rx3/core', 'rx4/core')
+
 info = {}
 
 
 def prop(sc):
     vs = []
-    for variant in ('core', 'rx3', 'rx4'):
+    for variant in VARIANTS:
         vs.extend(judge_variant(sc, variant))
     n, lim = sc['n'], sc['limit']
     inside = (sc['err_at'] is not None and 0 < sc['err_at'] < n) or (sc['dispose_after'] is not None and 0 < sc['dispose_after'] < n) \
@@ -536,7 +582,8 @@ def run(tier, seed):
     jobs = [dict(tier=tier, seed=0, n=None)] + [dict(tier=tier, seed=s, n=total // common.NPROC)
                                                   for s in common.shard_seeds(seed, common.NPROC)]
     stats = common.run_shards(__name__, 'shard', jobs)
-    stats.extra['executions_per_scenario'] = 3
+    stats.extra['executions_per_scenario'] = len(VARIANTS)
+    stats.extra['variants'] = list(VARIANTS)
     return common.finish(PID, tier, seed, LEVEL, RULE, stats, t0, ASSUMPTIONS)
 
 
